@@ -37,6 +37,9 @@ def parseCorr (s : String) : Option Transit :=
     | ["len", d] => do
       let d ← parseInt d
       some { Transit.none with len := fun n => n + d }
+    | ["shatrunc", n] => do
+      let n ← n.toNat?
+      some { Transit.none with sha := fun d => d.take n }
     | _ => none
 
 def rle : List Nat → List (Nat × Nat)
